@@ -95,7 +95,7 @@ def _wrap(v):
 
 
 # --------------------------------------------------------------------------------------------- P1b hostile hooks
-HOOKS = ("repr", "len", "to_json", "to_bytes", "eq")
+HOOKS = ("repr", "len", "to_json", "to_bytes", "eq")  # hooks that may raise; iteration of the one-shot stream never raises: consuming it IS the interference
 
 
 def _hostile(flags: Dict[str, bool], counter: Dict[str, int]):
@@ -144,6 +144,26 @@ def _hostile(flags: Dict[str, bool], counter: Dict[str, int]):
         def __add__(self, other):
             return self.v + other
 
+    class HIter:
+        """one-shot stream held in the context (no __dict__): iterating it is an observable side effect -- whoever iterates
+        first gets the items"""
+
+        __slots__ = ("it",)
+
+        def __init__(self, items):
+            self.it = iter(list(items))
+
+        def __iter__(self):
+            hit("iter")
+            return self
+
+        def __next__(self):
+            return next(self.it)
+
+        def __repr__(self):
+            hit("repr")
+            return "HIter"
+
     class HData(lib.IntData):
         """payload with hostile observation hooks"""
 
@@ -172,10 +192,28 @@ def _hostile(flags: Dict[str, bool], counter: Dict[str, int]):
         def __hash__(self):
             return 3
 
+    HVal.Stream = HIter
     return HVal, HData, HErr
 
 
-def _p1b_scenario(detail: str, bits: int, failing: bool):
+_DRAIN: List[Any] = []
+
+
+def _op_drain():
+    from vt import lib
+
+    if not _DRAIN:
+        class OpDrain(lib._IntOp):
+            """consumes the one-shot stream it is given as a parameter"""
+
+            def _process_logic(self, data, stream):
+                return lib.IntData(data.data + sum(stream))
+
+        _DRAIN.append(OpDrain)
+    return _DRAIN[0]
+
+
+def _p1b_scenario(detail: str, bits: int, failing: bool, drain_first: bool = False):
     from semantiva.trace.drivers.jsonl import JsonlTraceDriver
     from vt import lib
     from vt.memtrace import MemTrace
@@ -186,9 +224,11 @@ def _p1b_scenario(detail: str, bits: int, failing: bool):
         counter: Dict[str, int] = {}
         HVal, HData, HErr = _hostile(flags if traced else {}, counter)
         nodes = [{"processor": lib.OpAdd, "parameters": {}}, {"processor": lib.PrVal, "context_key": "out"}, {"processor": lib.OpAddDef, "parameters": {}}]
+        # the consumer of the one-shot stream is the first node (nothing ran before it) or the last
+        nodes = ([{"processor": _op_drain(), "parameters": {}}] + nodes) if drain_first else (nodes + [{"processor": _op_drain(), "parameters": {}}])
         if failing:
             nodes.append({"processor": lib.OpBoom, "parameters": {}})
-        ctx = {"addend": HVal(4), "k": HVal(9)}
+        ctx = {"addend": HVal(4), "k": HVal(9), "stream": HVal.Stream([1, 2, 3])}
         tr = MemTrace(options=JsonlTraceDriver(None, detail=detail).get_options()) if traced else None
         lib.reset_log()
         try:
@@ -207,7 +247,7 @@ def _p1b_scenario(detail: str, bits: int, failing: bool):
 
 
 def _make_p1b(detail):
-    def p1b(bits: int, failing: bool):
+    def p1b(bits: int, failing: bool, drain_first: bool):
         from crosshair.tracers import NoTracing
         from vt.engine import assume
 
@@ -217,7 +257,7 @@ def _make_p1b(detail):
         from vt import stubs
 
         with NoTracing(), stubs.suspended():
-            return _p1b_scenario(detail, cb, cf)
+            return _p1b_scenario(detail, cb, cf, True if drain_first else False)
 
     return p1b
 
@@ -388,8 +428,8 @@ def obligations(tier: str) -> List[Ob]:
     return [
         Ob("C10.P1a", _make_p1a, _replay_p1a, params=templates(tier), budget=400 if not big else 900, per_path=60,
            bound="per shape template (as C01), values and placements symbolic: untraced vs traced (in-memory driver) outcome, data, context, component log", targets=["semantiva/execution/orchestrator/orchestrator.py:SemantivaOrchestrator.execute", "semantiva/execution/orchestrator/orchestrator.py:SemantivaOrchestrator._context_snapshot"], stubs=list(STUBS)),
-        Ob("C10.P1b", _make_p1b, lambda d, a: _wrap(_p1b_scenario(d, a["bits"], a["failing"])), params=list(C06.DETAILS), budget=300,
-           bound="payload and context values with hostile __repr__/__len__/to_json/to_bytes/__eq__; which hooks raise = symbolic 5-bit mask; succeeding or failing pipeline (flag); 4 detail levels", targets=["semantiva/execution/orchestrator/orchestrator.py:SemantivaOrchestrator._data_summary", "semantiva/execution/orchestrator/orchestrator.py:SemantivaOrchestrator._context_summary", "semantiva/trace/delta_collector.py:DeltaCollector.compute", "semantiva/trace/_utils.py:serialize"], stubs=["time", "env_pins", "datetime", "str"]),
+        Ob("C10.P1b", _make_p1b, lambda d, a: _wrap(_p1b_scenario(d, a["bits"], a["failing"], a.get("drain_first", False))), params=list(C06.DETAILS), budget=300,
+           bound="payload and context values with hostile __repr__/__len__/to_json/to_bytes/__eq__ and a one-shot __iter__ stream consumed by the first or the last node (flag); which hooks raise = symbolic 5-bit mask; succeeding or failing pipeline (flag); 7 detail flag sets", targets=["semantiva/execution/orchestrator/orchestrator.py:SemantivaOrchestrator._data_summary", "semantiva/execution/orchestrator/orchestrator.py:SemantivaOrchestrator._context_summary", "semantiva/trace/delta_collector.py:DeltaCollector.compute", "semantiva/trace/_utils.py:serialize"], stubs=["time", "env_pins", "datetime", "str"]),
         Ob("C10.P2", _make_p2, lambda d, a: _wrap(_p2_scenario(["plain", "sweep", "failing"][a["ci"]], a["hist"], d)), params=list(C06.DETAILS), budget=300,
            bound="3 configurations (plain, with a sweep node, failing) x 5 histories (same object twice, fresh objects, after other pipelines, orchestrator shared with another sweep configuration, orchestrator shared with a failing run) - symbolic selectors; 4 detail levels; real JSONL driver, normalised traces compared",
            targets=["semantiva/execution/orchestrator/orchestrator.py:SemantivaOrchestrator._make_ser_record", "semantiva/trace/drivers/jsonl.py:JsonlTraceDriver.on_node_event"], stubs=["time", "env_pins", "datetime", "str"]),
